@@ -170,7 +170,7 @@ def main(tier, seed):
     # call), with a settings change and an errstr now and then
     n_long = 66000 if tier == "quick" else 140000
     for m in (3, 1):
-        p = ["r%d" % m, "s"]
+        p = ["r%d" % m, "s", "r%d" % (m - 1)]          # and an rfc value that is never confirmed: it must not take effect, ever
         for i in range(n_long):
             p.append("e%d" % (i % len(HM.POOL7)))
             if i % 997 == 0:
